@@ -10,7 +10,7 @@ COQ = dict(imports=["Model.Plan", "Spec.C02"], in_ty="input02", out_ty="pres (li
            corr="corr_C02", decide="check_C02", inclass="inclass_C02", model="model_C02")
 SUITES = {"cmd": cs.SUITE}
 cleanup = cs.cleanup
-THEOREMS = ["C02_whole_command_model", "C02_whole_command_decider_sound", "C02_model_holds", "C02_plan_exact", "C02_total", "C02_decider_sound", "C02_downgrade_base_removes_all"]
+THEOREMS = ["C02_whole_command_model", "C02_whole_command_decider_sound", "C02_cyclic_history_refused", "C02_model_holds", "C02_plan_exact", "C02_total", "C02_decider_sound", "C02_downgrade_base_removes_all"]
 TRUSTED = ["target strings (ids, base, -N, rev-N, label@rev) are resolved by the real _parse_downgrade_target / _resolve_branch and "
            "handed to the model as (target id or base, branch revision): C02 is planner-after-resolution, resolution itself is C16",
            "order oracle: stored order of _normalized_resolved_dependencies observed; theorems hold for every order"]
